@@ -33,6 +33,8 @@ def cases(ctx):
     for ln in lens:
         ctx.count('rmd')
         yield Case(f'rmd {hx(G.rbytes(rng, ln) if ln > 64 else bytes(rng.getrandbits(8) for _ in range(ln)))}', 'ms', nontrivial=ln >= 56, tag='rmd')
+    from harness import rmdleaf
+    yield from rmdleaf.cases(ctx)
     for _ in range(ctx.n(100, 3000)):
         tag = rng.choice(['TapLeaf', 'TapBranch', 'TapTweak', 'TapSighash', 'BIP0340/aux', 'BIP0340/nonce', 'BIP0340/challenge', 'x', 'Tag%d' % rng.randrange(100)])
         yield Case(f'tagged {tag} {hx(G.rbytes(rng, rng.randrange(0, 200)))}', 's', nontrivial=True, tag='tagged')
@@ -96,6 +98,9 @@ def cases(ctx):
 def impl(op, a, ctx):
     from bitcoinutils.ripemd160 import ripemd160
     from bitcoinutils import utils, schnorr
+    if op.startswith('rmd_'):
+        from harness import rmdleaf
+        return rmdleaf.impl(op, a, ctx)
     F = Fields(a)
     if op == 'rmd':
         return 'ok ' + hx(ripemd160(F.bytes()))
